@@ -72,6 +72,10 @@ def run(ctx):
     for b in [x for x in behs if len(x["ops"]) == 1 and x["ops"][0].get("how") in ("body", "last", "trunc1", None)][:12]:
         s, dd = rnd.choice(combos)
         scheds.append({"ops": b["ops"], "delivered": b["delivered"], "err": b["err"], "suite": s, "dir": dd, "plan": "big"})
+    # one 40 000-byte Write cut into several records by the record layer, untouched by the adversary (the half-connection
+    # trace spec sees every record's sequence number and explicit IV / nonce)
+    for (s, dd) in combos:
+        scheds.append({"ops": [], "delivered": 4 if s == 0xe013 else 3, "err": False, "suite": s, "dir": dd, "plan": "huge"})
     # record-type rewrites on payloads that would parse as an alert / ChangeCipherSpec (GCM: no 1/n-1 split)
     for b in [x for x in behs if len(x["ops"]) == 1 and x["ops"][0].get("how") in ("type", "type21", "type20")]:
         for dd in DIRS:
